@@ -42,6 +42,9 @@ fn gen(prop: &str, tier: &str, seed: u64, out: &str) {
             if em.mine(1) {
                 c19::hand_codecs(&mut em, &mut rng.sub(500), "c20");
             }
+            // well-formed schemas with several equality statements in every listing order
+            c03::equality_graphs::<pres::Bbs>(&mut em, &mut rng.sub(501), "bbs");
+            c03::equality_graphs::<pres::Ps>(&mut em, &mut rng.sub(502), "ps");
         }
         "C14" => vb20::gen_c14(&mut em, &mut rng),
         "C13" => issuer::gen_c13(&mut em, &mut rng),
